@@ -151,7 +151,7 @@ CHECKS['C01'] = {
     'verus_units': ['extract', 'valuetype', 'parser', 'converter'],
     'clause_prefixes': ['c01'],
     'technique': 'contract-based deductive verification (Verus): ColumnParsing::extract_using_regex, the Regex / MultiRegex-array / MultiRegex-timestamp arms of ColumnParsing::extract, ColumnDefinition::default_value and TableDefinition::extract extracted from /repo against a specification of "the referenced group of the referenced pattern, typed"',
-    'claim': 'Proof for all column definitions, match results and lines that each regex/split column holds exactly sem_ref(type, line, reference, default): the text of the referenced group of the referenced pattern converted by the declared type (BOOLEAN = presence, NULL when not a literal, DEFAULT/NULL when pattern or group did not take part), arrays position by position, TIMESTAMP columns built from exactly the integer groups as mathematical integers (an out-of-range part gives the default, never a wrapped value), TRIM on TEXT only, and that the row is all columns in definition order or empty at the first NULL NOT NULL column.',
+    'claim': 'Proof for all column definitions, match results and lines that each regex/split column holds exactly sem_ref(type, line, reference, default): the text of the referenced group of the referenced pattern converted by the declared type (BOOLEAN = presence, NULL when not a literal, DEFAULT/NULL when pattern or group did not take part), arrays position by position, TIMESTAMP columns built from exactly the integer groups as mathematical integers (an out-of-range part gives the default, never a wrapped value), the second group also as an English month name (only the twelve abbreviations, june, july, sept, compared in lower case), a listed group that did not take part or is neither gives NULL / the DEFAULT - never a timestamp assembled from the other groups -, TRIM on TEXT only, and that the row is all columns in definition order or empty at the first NULL NOT NULL column.',
     'note': 'Trusted: the regex crate (leftmost match, group text, split) behind the VCaptures / VRegexResults stand-ins, ValueType::parse as an uninterpreted function inside unit extract (its body is under contract in unit valuetype: the result has the requested type or is NULL, TEXT verbatim, INT / REAL / BOOLEAN by the std parsers, INTERVAL needs three fitting parts; the chrono TIMESTAMP parser is a stand-in), chrono civil-time construction (sem_civil), str::trim. CREATE TABLE side (units parser, converter): Parser::parse_create_table is proved to return, for every token vector, one column per written column definition in the written order, each with exactly the written pattern[group] references (all of them, in order), the inline form bound to group 1 of a capture pattern of its own, a { path } column with exactly the written steps, and the patterns (name, text, split/match mode) as written; parse_define_column is proved to set exactly the option its modifier token names (NOT NULL, TRIM on TEXT only, CONVERT, MICROSECONDS, DEFAULT literal of the column type); create_create_table_statement / transform_statement are proved to carry name, patterns and columns into TableDefinition::new unchanged with the documented defaults for undeclared options; TableDefinition::new (unit extract) keeps patterns by name in order. Unproved: the month-name branch of the timestamp arm (stubbed).',
     'level': 'proof',
     'explanation': 'sem_column / sem_row are written from the property statement over an abstract match result; the extracted code is proved equal to them, loop invariants spliced by ordinal.',
@@ -163,7 +163,7 @@ CHECKS['C02'] = {
     'verus_units': ['extract', 'parser', 'converter'],
     'clause_prefixes': ['c02'],
     'technique': 'contract-based deductive verification (Verus): JsonAccess::get_value (recursive, with decreases), the Json arm of ColumnParsing::extract and the scalar arms of ValueType::convert_from_json extracted from /repo against json_walk / sem_from_json',
-    'claim': 'Proof for all paths and JSON trees that get_value returns exactly the value addressed by following fields and array indexes (None as soon as a step is absent), and that a JSON column is that value converted without coercion (INT only from as_i64, REAL from as_f64, TEXT only from strings, BOOLEAN only from booleans, CONVERT = parse of a JSON string as the declared type, wrong type = NULL, absent path = DEFAULT/NULL). Termination of the path walk is proved.',
+    'claim': 'Proof for all paths and JSON trees that get_value returns exactly the value addressed by following fields and array indexes (None as soon as a step is absent), and that a JSON column is that value converted without coercion (INT only from as_i64, REAL from as_f64, TEXT only from strings, BOOLEAN only from booleans, arrays element by element with the element type (nested arrays by recursion on the type; an element of another JSON type is NULL; not a JSON array = NULL), CONVERT = parse of a JSON string as the declared type, wrong type = NULL, absent path = DEFAULT/NULL). Termination of the path walk is proved.',
     'note': 'Trusted: serde_json parsing and accessors behind the VJson stand-in (as_i64 only for integers within 64 bits etc. is serde_json documentation). The JSON column syntax is covered in units parser / converter: parse_create_table returns for `{ .a.b[0] } => name TYPE` a JSON column whose path is exactly the written steps in order (JsonAccess::from_linear under contract), with the modifier its token names, and the lowering keeps it. Unproved: element-wise array conversion (iterator chain, stubbed arm).',
     'level': 'proof',
     'explanation': 'json_walk is the recursive specification of the path; the extracted get_value is proved equal to it with decreases self.',
